@@ -245,6 +245,24 @@ def ob_constructors(max_children=2, max_rank=2):
         ts = 0.0
         fails = []
         for n in (2, 3)[: max(1, max_children - 1)]:
+            # children of DIFFERENT ranks are a documented mismatch too (np.concatenate / np.stack reject them)
+            for r_, other in [(r0, o) for r0 in range(1, max_rank + 2) for o in (r0 - 1, r0 + 1) if o >= 0]:
+                def harness_mixed(ex, r_=r_, other=other):
+                    ch = [FB(ints("s0_", r_), None)] + [FB(ints(f"s{i}_", other if i == n - 1 else r_), None) for i in range(1, n)]
+                    ax = SNum(z3.Int("axis"))
+                    ns = _stub_self(cls)
+                    try:
+                        cls.__init__(ns, ch, ax)
+                        raised = False
+                    except (ValueError, IndexError):
+                        raised = True
+                    # for an axis valid for the first child every rank mismatch must be rejected at construction
+                    return raised, z3.BoolVal(True), f"{label} n={n} ranks {r_} and {other} (last child)"
+                lim = r_ + 1 if cls is Stack else r_
+                rr = _run(f"C13/{label}.__init__ n={n} child ranks {r_} vs {other}: different ranks are rejected", harness_mixed, [z3.Int("axis") >= -lim, z3.Int("axis") < lim])
+                tq += rr["queries"]; ts += rr["solver_s"]; tp += rr.get("paths", 0)
+                if rr["status"] != "discharged":
+                    fails.append(rr)
             for r_ in range(0 if cls is Stack else 1, max_rank + 2):
                 def harness(ex):
                     ch = [FB(ints(f"s{i}_", r_), None) for i in range(n)]
